@@ -611,15 +611,50 @@ def r7_encoding_reaches_decoder(rep, src):
     from ..core import Func, set_parents
     set_parents(fnode)
     f = Func(f0.module, fnode, f0.qual, f0.cls)
-    enc_calls = [c for c in ast.walk(f.node) if isinstance(c, ast.Call) and isinstance(c.func, ast.Attribute) and c.func.attr in ('_bytes', 'encode') and c.args]
+    def _per_line(c):
+        # inside a loop / comprehension / nested generator: applied to the lines one by one
+        a_ = c
+        while getattr(a_, '_parent', None) is not None and a_._parent is not f.node:
+            a_ = a_._parent
+            if isinstance(a_, (ast.For, ast.GeneratorExp, ast.ListComp, ast.FunctionDef)):
+                return True
+        return False
+    enc_calls = [c for c in ast.walk(f.node) if isinstance(c, ast.Call) and isinstance(c.func, ast.Attribute) and c.func.attr in ('_bytes', 'encode') and c.args
+                 and _per_line(c)]
     names = set()
     for c in enc_calls:
         a = c.args[-1]
-        if isinstance(a, ast.Name):
-            names.add(a.id)
+        if isinstance(a, (ast.Name, ast.Constant)):
+            names.add(norm(a))
     if len(names) != 1:
-        raise AnalysisError('%s: the encoding used to turn text lines into bytes is not one local (%s)' % (f.site, sorted(names)))
+        raise AnalysisError('%s: the encoding used to turn text lines into bytes is not one local or constant (%s)' % (f.site, sorted(names)))
     enc = next(iter(names))
+    # the lines are encoded one by one: with a codec that writes a signature on every call (utf-8-sig, utf-16, utf-32) each line would
+    # begin with a byte order mark and blank lines, comment lines and the armor would not be recognised.  The codec of the per-line
+    # encoder is therefore a constant that names a codec without signature -- not the encoding of the file object or the caller's.
+    binds = [st for st in ast.walk(f0.node) if isinstance(st, ast.Assign) and len(st.targets) == 1 and norm(st.targets[0]) == enc]
+    what0 = 'text lines are encoded one by one with a codec that writes no signature'
+    plain = {'utf-8', 'utf8', 'ascii', 'us-ascii', 'latin-1', 'latin1', 'iso-8859-1'}
+    a0 = enc_calls[0].args[-1]
+    codec = a0.value if isinstance(a0, ast.Constant) else (binds[0].value.value if len(binds) == 1 and isinstance(binds[0].value, ast.Constant) else None)
+    if isinstance(codec, str) and codec.lower().replace('_', '-') in plain:
+        rep.ok('C02.R7', f.site, what0, 'codec %r' % codec)
+    else:
+        rep.fail('C02.R7', f.site, what0, 'every text line is turned into bytes separately with `%s` = %s: for a text file opened with utf-8-sig, utf-16 or utf-32 each line '
+                 'then starts with a byte order mark, so blank lines, comments and the PGP armor are not recognised (paragraphs merge, armor headers become fields) although '
+                 'the same text as str, list or StringIO is read correctly' % (enc, norm(binds[0].value)[:70] if binds else 'a parameter'),
+                 where='%s:%d' % (f.module.relpath, enc_calls[0].lineno))
+    # a flag that records that text lines were encoded: changed only next to the per-line encoder, under a test that the line is text
+    text_flags = set()
+    for c in ast.walk(f.node):
+        if isinstance(c, ast.Call) and isinstance(c.func, ast.Attribute) and c.func.attr in ('append', 'add') and isinstance(c.func.value, ast.Name) and _per_line(c):
+            par_ = getattr(getattr(c, '_parent', None), '_parent', None)
+            if isinstance(par_, ast.If) and norm(par_.test).startswith('isinstance(') and norm(par_.test).endswith(', str)'):
+                text_flags.add(c.func.value.id)
+    for n_ in list(text_flags):
+        others = [x for x in ast.walk(f.node) if isinstance(x, ast.Name) and x.id == n_ and isinstance(x.ctx, ast.Store)]
+        if len(others) != 1:
+            text_flags.discard(n_)
     g = cfg.CFG(f.node)
     base_calls = [c for c in ast.walk(f.node) if isinstance(c, ast.Call) and isinstance(c.func, ast.Attribute) and c.func.attr == '__init__' and norm(c.func.value) != 'self']
     if len(base_calls) != 1:
@@ -656,7 +691,7 @@ def r7_encoding_reaches_decoder(rep, src):
         par = getattr(s_, '_parent', None)
         if isinstance(par, ast.If) and s_ in par.body and not par.orelse and all(isinstance(n_, (ast.Name, ast.Constant, ast.Compare, ast.Call, ast.Load, ast.Lt, ast.LtE, ast.Gt, ast.GtE))
                                                                              for n_ in ast.walk(par.test)) \
-                and {n_.id for n_ in ast.walk(par.test) if isinstance(n_, ast.Name)} <= {'len', 'args'}:
+                and {n_.id for n_ in ast.walk(par.test) if isinstance(n_, ast.Name)} <= ({'len', 'args'} | text_flags):
             pass
         else:
             par = None
@@ -664,7 +699,7 @@ def r7_encoding_reaches_decoder(rep, src):
             # the same through `not <comparison of len(args)>`
             p2 = s_._parent
             names2 = {n_.id for n_ in ast.walk(p2.test) if isinstance(n_, ast.Name)}
-            par = p2 if s_ in p2.body and not p2.orelse and names2 <= {'len', 'args'} else None
+            par = p2 if s_ in p2.body and not p2.orelse and names2 <= ({'len', 'args'} | text_flags) else None
         if par is not None:
             guards.add(g.node_for(par.test).id if hasattr(g, 'node_for') else None)
     ok = bool(stores) and all(not g.exists_path(g.node_for(r_).id, bn, avoid=({g.node_for(s_).id for s_ in stores} | guards) - {g.node_for(r_).id}) or
